@@ -438,3 +438,36 @@ func VfC10_BtoiLong() {
 		nd.Assert(got == want, "btoi64 value equals strconv.ParseInt value (long numbers)")
 	}
 }
+
+// VfC10_BtoiBoundary: around the limits of int64 - where a fast path without an overflow check would
+// wrap silently - btoi64 agrees with strconv.ParseInt: an optional sign, one of a few 18-digit
+// prefixes (the first 18 digits of MaxInt64, all nines, a one followed by zeros) and one or two
+// further arbitrary digits (so 19- and 20-digit numbers on both sides of the limit).
+func VfC10_BtoiBoundary() {
+	prefixes := []string{"922337203685477580", "999999999999999999", "100000000000000000", "184467440737095516"}
+	pre := prefixes[nd.Concrete(nd.Choice("prefix", len(prefixes)))]
+	var b []byte
+	switch nd.Concrete(nd.Choice("sign", 3)) {
+	case 1:
+		b = append(b, '-')
+	case 2:
+		b = append(b, '+')
+	}
+	b = append(b, pre...)
+	extra := nd.Concrete(nd.IntRange("extra-digits", 1, 2))
+	tail := nd.Bytes("d", extra)
+	for i := range tail {
+		nd.Assume(tail[i] >= '0' && tail[i] <= '9')
+	}
+	b = append(b, tail...)
+	nd.PanicLabel("btoi64")
+	got, gerr := btoi64(b)
+	want, werr := strconv.ParseInt(string(b), 10, 64)
+	nd.Assert((gerr == nil) == (werr == nil), "btoi64 accepts exactly what strconv.ParseInt accepts (numbers around the int64 limits)")
+	if gerr == nil && werr == nil {
+		nd.Cover("accepted")
+		nd.Assert(got == want, "btoi64 value equals strconv.ParseInt value (numbers around the int64 limits)")
+	} else {
+		nd.Cover("out-of-range")
+	}
+}
